@@ -374,7 +374,7 @@ func (binaryProtocol) ReadString(buf []byte) (value string, length int, err erro
 		err = e
 		return
 	}
-	if size < 0 || int(size) > len(buf) {
+	if size < 0 || int(size) > len(buf)-length {
 		return value, length, InvalidDataLength
 	}
 	value = string(buf[length : length+int(size)])
@@ -389,7 +389,7 @@ func (binaryProtocol) ReadBinary(buf []byte) (value []byte, length int, err erro
 		err = e
 		return
 	}
-	if size < 0 || int(size) > len(buf) {
+	if size < 0 || int(size) > len(buf)-length {
 		return value, length, InvalidDataLength
 	}
 	value = make([]byte, size)
